@@ -281,7 +281,10 @@ pub extern "C" fn on_alarm(_s: i32) {
     // the library blocked in read(fd) of a pipe, or in poll() on some pipes: for each of them, which children hold
     // the OTHER end (any descriptor, also 0-2), and does the library's own process hold it too
     let mut waits_on: Vec<(i64, i64)> = vec![]; // (fd, peer access mode)
-    if blocked <= -1000 {
+    if blocked <= -2000 {
+        // (blocked in write(fd): what it waits for is a reader of that pipe making room)
+        waits_on.push((-2000 - blocked, 0));
+    } else if blocked <= -1000 {
         waits_on.push((-1000 - blocked, 1));
     }
     let npoll = slog::BLOCKED_POLL[0].load(std::sync::atomic::Ordering::SeqCst);
